@@ -173,6 +173,28 @@ def run(ctx):
                ((q, copy.deepcopy(x), l) for q, x, l in get_hmf("mean_density0", framework=Transfer, fast_kwargs=FAST["Transfer"], transfer_model="EH", cosmo_params=vals))]
         if got[1] != {"H0": 75.0}:
             viol("dict-list-elements-merge", f"get_hmf(cosmo_params=[{{'Om0':0.25}},{{'H0':75.0}}]): second result has cosmo_params={got[1]} (merged), a fresh framework built with that combination has {{'H0': 75.0}}", {"call": "get_hmf('mean_density0', framework=Transfer, transfer_model='EH', cosmo_params=[{'Om0':0.25},{'H0':75.0}])"})
+    # list-valued cosmo_model whose elements share their astropy name (clones of one model; all are called "Planck15 (modified)"):
+    # each yielded result belongs to its own cosmology
+    try:
+        with warnings.catch_warnings():
+            warnings.simplefilter("ignore")
+            from astropy.cosmology import Planck15
+            from hmf.mass_function.hmf import MassFunction
+            models = [Planck15.clone(Om0=0.30), Planck15.clone(Om0=0.22), Planck15.clone(Om0=0.36)]
+            for extra_kw in ({}, {"z": [0.0, 1.0]}):
+                got_ = [(np.array(q[0], float).copy(), x.cosmo.Om0) for q, x, l in get_hmf(["dndm"], framework=MassFunction, fast_kwargs=FAST["MassFunction"], cosmo_model=models, transfer_model="EH", **FAST["MassFunction"], **extra_kw)] \
+                    if False else [(np.array(item[0][0], float).copy(), float(item[1].cosmo.Om0), float(item[1].z)) for item in get_hmf(["dndm"], framework=MassFunction, fast_kwargs=FAST["MassFunction"], cosmo_model=models, **dict(FAST["MassFunction"], **extra_kw))]
+                for val_, om_, z_ in got_:
+                    fr_ = MassFunction(**dict(FAST["MassFunction"], cosmo_model=[m_ for m_ in models if abs(m_.Om0 - om_) < 1e-12][0], z=z_)).dndm if any(abs(m_.Om0 - om_) < 1e-12 for m_ in models) else None
+                    nfresh += 1
+                    if fr_ is None or not np.allclose(val_, fr_, rtol=1e-10, equal_nan=True):
+                        viol("same-named-cosmologies", f"get_hmf(cosmo_model=[three clones of Planck15 with Om0 = 0.30, 0.22, 0.36]{', z=[0, 1]' if extra_kw else ''}): a yielded dndm (reported Om0={om_}) differs from a fresh framework with that cosmology",
+                             {"call": "get_hmf(['dndm'], cosmo_model=[Planck15.clone(Om0=0.30), Planck15.clone(Om0=0.22), Planck15.clone(Om0=0.36)], ...)"})
+                        break
+                if sorted(round(x[1], 6) for x in got_) != sorted([0.30, 0.22, 0.36] * (2 if extra_kw else 1)):
+                    viol("same-named-cosmologies", f"get_hmf over three same-named cosmologies yields Om0 values {[x[1] for x in got_]}", {"call": "get_hmf(cosmo_model=[Planck15.clone(...) x3])"})
+    except Exception as e:
+        out["broken"].append({"kind": "harness", "what": f"same-named cosmologies scenario raised {type(e).__name__}: {e}"})
     out["coverage"] = {
         "evaluations": nitems + len(req_lines), "programs": len(req_lines), "disagreements_checked": len(req_lines),
         "traces_validated_against_impl": len(req_lines), "distinct_nontrivial": ncalls,
